@@ -125,6 +125,23 @@ func doCompile(j *job, res map[string]any) {
 			res["msl_info"] = Dump(info)
 		}
 	}
+	if j.Wants("msl_vpt") {
+		// MSL with the vertex-pulling transform: one vertex buffer whose attributes cover every @location input of every
+		// vertex entry point (format chosen from the input's type)
+		o := msl.DefaultOptions()
+		o.VertexPullingTransform = true
+		attrs, stride := vptAttributes(mod)
+		if len(attrs) > 0 {
+			o.VertexBufferMappings = []msl.VertexBufferMapping{{ID: 1, Stride: stride, StepMode: msl.VertexStepModeByVertex, Attributes: attrs}}
+			s, info, err := msl.Compile(mod, o)
+			if err != nil {
+				res["msl_vpt_err"] = err.Error()
+			} else {
+				res["msl_vpt"] = s
+				res["msl_vpt_info"] = Dump(info)
+			}
+		}
+	}
 	if j.Wants("glsl") {
 		outs := map[string]any{}
 		for _, ep := range mod.EntryPoints {
@@ -151,4 +168,63 @@ func doCompile(j *job, res map[string]any) {
 		res["ir_after"] = Dump(mod)
 	}
 	_ = ir.Module{}
+}
+
+
+// vptAttributes lists one attribute per distinct @location of the vertex-stage inputs of mod.
+func vptAttributes(mod *ir.Module) ([]msl.AttributeMapping, uint32) {
+	var attrs []msl.AttributeMapping
+	seen := map[uint32]bool{}
+	var off uint32
+	add := func(b ir.Binding, ty ir.TypeHandle) {
+		lb, ok := b.(ir.LocationBinding)
+		if !ok || seen[lb.Location] || int(ty) >= len(mod.Types) {
+			return
+		}
+		kind, n := ir.ScalarFloat, 1
+		switch t := mod.Types[ty].Inner.(type) {
+		case ir.ScalarType:
+			kind = t.Kind
+		case ir.VectorType:
+			kind, n = t.Scalar.Kind, int(t.Size)
+		default:
+			return
+		}
+		var f msl.VertexFormat
+		switch kind {
+		case ir.ScalarSint:
+			f = []msl.VertexFormat{msl.VertexFormatSint32, msl.VertexFormatSint32x2, msl.VertexFormatSint32x3, msl.VertexFormatSint32x4}[n-1]
+		case ir.ScalarUint:
+			f = []msl.VertexFormat{msl.VertexFormatUint32, msl.VertexFormatUint32x2, msl.VertexFormatUint32x3, msl.VertexFormatUint32x4}[n-1]
+		default:
+			f = []msl.VertexFormat{msl.VertexFormatFloat32, msl.VertexFormatFloat32x2, msl.VertexFormatFloat32x3, msl.VertexFormatFloat32x4}[n-1]
+		}
+		seen[lb.Location] = true
+		attrs = append(attrs, msl.AttributeMapping{ShaderLocation: lb.Location, Offset: off, Format: f})
+		off += 16
+	}
+	for _, ep := range mod.EntryPoints {
+		if ep.Stage != ir.StageVertex {
+			continue
+		}
+		for _, a := range ep.Function.Arguments {
+			if a.Binding != nil {
+				add(*a.Binding, a.Type)
+				continue
+			}
+			if int(a.Type) < len(mod.Types) {
+				if st, ok := mod.Types[a.Type].Inner.(ir.StructType); ok {
+					for _, m := range st.Members {
+						if m.Binding != nil {
+							add(*m.Binding, m.Type)
+						}
+					}
+				}
+			}
+		}
+	}
+	if off == 0 {
+		off = 16
+	}
+	return attrs, off
 }
